@@ -219,7 +219,7 @@ def c19_readers(S, fmt, ch, rate, rng, nreaders=3):
 
 
 ROUTES_R = ["vio", "fd", "fdk", "path", "emb44", "emb4096", "embz44", "embz4096", "pipe"]
-ROUTES_W = ["vio", "fd", "fdk", "path"]
+ROUTES_W = ["vio", "fd", "fdk", "path", "embw44"]
 EMBED_OK = (1, 2, 3, 0x13)      # WAV, AIFF, AU, WAVEX (the library's embedding whitelist is what it is: failures are allowed by the spec)
 
 
@@ -427,11 +427,12 @@ def c13_scenario(S, fmt, ch, rate, rng, count, ids, payloads, late=False, shortb
     S.add("seek 1 0 0", "read 1 %s f 3" % T, "close 1")
 
 
-def c18_scenario(S, fmt, ch, rate, rng, N, layout, nparts, rdwr=False):
+def c18_scenario(S, fmt, ch, rate, rng, N, layout, nparts, rdwr=False, wT=None):
     """float/double (grid k/1024, dyadic logging) or integer PCM content; PEAK queries after re-open; CALC_* at several read positions"""
     s = scen.sub(fmt)
     T = "f" if s == 6 else "d" if s == 7 else ("s" if scen.SUB_WIDTH.get(s, 16) <= 16 else "i")
-    S.scn(fmt="0x%x" % fmt, ch=ch, T=T, N=N, kind="c18", layout=layout, fmode=1)
+    # wT: float / double file written through sf_write_short / sf_write_int (unscaled: the integer k is stored as the float k)
+    S.scn(fmt="0x%x" % fmt, ch=ch, T=T, N=N, kind="c18", layout=layout, fmode=1, **({"wT": wT} if wT else {}))
     S.add("file 1 new", "open 0 vio w 1 %d %d %d" % (fmt, ch, rate))
     seed = rng.randint(1, 10 ** 6)
     # explicit values: a base of small magnitudes plus maxima placed by 'layout' (first / last frame, call boundary, ties)
@@ -477,8 +478,10 @@ def c18_scenario(S, fmt, ch, rate, rng, N, layout, nparts, rdwr=False):
     else:
         tokf = tok
     off = 0
+    if wT:
+        tokf = str
     for p in parts:
-        S.add("write 0 %s f %d %s" % (T, p, " ".join(tokf(v) for v in vals[off * ch:(off + p) * ch])))
+        S.add("write 0 %s f %d %s" % (wT or T, p, " ".join(tokf(v) for v in vals[off * ch:(off + p) * ch])))
         off += p
     S.add("close 0")
     S.add("open 1 vio %s 1 %d %d %d" % ("rw" if rdwr else "r", fmt if (scen.major(fmt) == scen.RAW or rdwr) else 0, ch, rate))
